@@ -142,6 +142,40 @@ class Engine:
         self._commit(conds[ent[0]])
         return ent[0]
 
+    def choose_value(self, e, limit=100000):
+        """fork over the values the term e can take under pc (enumerated by the solver, one call per
+        value); returns the chosen value as an unsigned int of e's width"""
+        if self.pos < len(self.stack):
+            ent = self.stack[self.pos]
+        else:
+            vals = []
+            keep = self.cur_model
+            self.solver.push()
+            try:
+                while True:
+                    self.n_feas += 1
+                    if not self._solve():
+                        break
+                    v = self.cur_model.eval(e, model_completion=True).as_long()
+                    vals.append(v)
+                    if len(vals) > limit:
+                        raise Unsupported('choose_value: more than %d values' % limit)
+                    self.solver.add(e != v)
+            finally:
+                self.solver.pop()
+                self.cur_model = keep
+            if not vals:
+                raise Abort('no feasible value')
+            vals.sort()
+            ent = [0, list(range(1, len(vals))), len(vals) > 1, vals]
+            self.stack.append(ent)
+        if ent[2]:
+            self.forks_on_path += 1
+        self.pos += 1
+        v = ent[3][ent[0]]
+        self._commit(e == v)
+        return v
+
     def branch(self, cond):
         """2-way decision on a z3 Bool."""
         cond = z3.simplify(cond)
